@@ -7,7 +7,9 @@ package main
 
 import (
 	"go/token"
+	"go/types"
 	"sort"
+	"strings"
 
 	"golang.org/x/tools/go/ssa"
 )
@@ -72,10 +74,10 @@ func newC17flow(k *c17kit) *c17flow {
 		if !ok || !k.isW(st.Addr) {
 			return
 		}
-		ls := k.origins(st.Val, c17isGzipWriter)
+		ls := k.origins(st.Val, k.isGzipValue)
 		all := len(ls) > 0
 		for _, l := range ls {
-			if !c17isGzipWriter(l.v) {
+			if !k.isGzipValue(l.v) {
 				all = false
 			}
 		}
@@ -84,7 +86,7 @@ func newC17flow(k *c17kit) *c17flow {
 			return
 		}
 		for _, l := range ls {
-			if li, isI := l.v.(ssa.Instruction); isI && c17isGzipWriter(l.v) {
+			if li, isI := l.v.(ssa.Instruction); isI && k.isGzipValue(l.v) {
 				e.inst[li] = true
 			}
 		}
@@ -126,8 +128,8 @@ func (k *c17kit) isInstall(i ssa.Instruction) bool {
 }
 
 func (k *c17kit) storesGzip(st *ssa.Store) bool {
-	for _, l := range k.origins(st.Val, c17isGzipWriter) {
-		if c17isGzipWriter(l.v) {
+	for _, l := range k.origins(st.Val, k.isGzipValue) {
+		if k.isGzipValue(l.v) {
 			return true
 		}
 	}
@@ -152,12 +154,12 @@ func c17isPoolGet(i ssa.Instruction) bool {
 
 // wrapsUnderlying: every origin of v is the wrapped ResponseWriter (the field of T, or what was stored into it).
 func (k *c17kit) wrapsUnderlying(v ssa.Value) bool {
-	ls := k.origins(v, func(x ssa.Value) bool { return k.field(x) == k.rwIdx })
+	ls := k.origins(v, k.isRW)
 	if len(ls) == 0 {
 		return false
 	}
 	for _, l := range ls {
-		if k.field(l.v) != k.rwIdx {
+		if !k.isRW(l.v) {
 			return false
 		}
 	}
@@ -195,7 +197,7 @@ func (e *c17flow) classify(i ssa.Instruction, deferred bool) c17event {
 		}
 	}
 	if cc.IsInvoke() {
-		if cc.Method.Name() == "Write" && k.isW(cc.Value) {
+		if cc.Method.Name() == "Write" && k.isWval(cc.Value) {
 			return evUse
 		}
 		return evNone
@@ -375,17 +377,149 @@ func (e *c17flow) run(fn *ssa.Function, in c17st, depth int) []c17st {
 // call: the effect of one call (or replayed deferred call) in state s: a landmark, or a same-package function inlined.
 func (e *c17flow) call(i ssa.Instruction, cc *ssa.CallCommon, s c17st, depth int, deferred bool) []c17st {
 	if e.classify(i, deferred) == evNone {
-		var callees []*ssa.Function
-		if sc := cc.StaticCallee(); sc != nil {
-			callees = []*ssa.Function{sc}
-		} else if !cc.IsInvoke() {
-			callees = funcsOf(cc.Value)
-		}
-		if len(callees) == 1 && len(callees[0].Blocks) > 0 && rootPkg(callees[0]) == e.k.pkg {
-			return e.run(unwrap(callees[0]), s, depth+1)
+		if callees := e.k.callees(cc); len(callees) > 0 {
+			// a call through an interface of the package (or on the decided writer) or of a function value kept in a field:
+			// any of the package's implementations may run - the states after each of them are all possible
+			var out []c17st
+			uniq := map[c17st]bool{}
+			for _, g := range callees {
+				for _, t := range e.run(g, s, depth+1) {
+					if !uniq[t] {
+						uniq[t] = true
+						out = append(out, t)
+					}
+				}
+			}
+			return out
 		}
 	}
 	return []c17st{e.step(i, s, deferred)}
+}
+
+// callees: the functions of the region that a call may execute: the static callee, the region's implementations of an
+// interface method, or the functions a function value can denote (closure, bound method, named function - also when
+// the value is kept in a field of a struct of the region). Empty when the call leaves the region or is not resolvable.
+func (k *c17kit) callees(cc *ssa.CallCommon) []*ssa.Function {
+	var cands []*ssa.Function
+	switch {
+	case cc.StaticCallee() != nil:
+		cands = []*ssa.Function{cc.StaticCallee()}
+	case cc.IsInvoke():
+		return k.implementations(cc)
+	default:
+		cands = funcsOf(cc.Value)
+		if len(cands) == 0 {
+			for _, l := range k.origins(cc.Value, c17isFuncValue) {
+				switch x := l.v.(type) {
+				case *ssa.MakeClosure:
+					if fn, ok := x.Fn.(*ssa.Function); ok {
+						cands = append(cands, fn)
+					}
+				case *ssa.Function:
+					cands = append(cands, x)
+				default:
+					return nil // may be a function we do not see
+				}
+			}
+		}
+	}
+	var out []*ssa.Function
+	seen := map[*ssa.Function]bool{}
+	for _, g := range cands {
+		g = unwrap(g)
+		if len(g.Blocks) == 0 || !k.inRegion(g) {
+			return nil
+		}
+		if !seen[g] {
+			seen[g] = true
+			out = append(out, g)
+		}
+	}
+	return out
+}
+
+func c17isFuncValue(x ssa.Value) bool {
+	switch x.(type) {
+	case *ssa.MakeClosure, *ssa.Function:
+		return true
+	}
+	return false
+}
+
+// implementations: for a call through an interface declared in the region, or through the decided-writer field, the
+// methods of the region's types that may be executed (deterministic order).
+func (k *c17kit) implementations(cc *ssa.CallCommon) []*ssa.Function {
+	if !cc.IsInvoke() {
+		return nil
+	}
+	it, ok := cc.Value.Type().Underlying().(*types.Interface)
+	if !ok {
+		return nil
+	}
+	if n := c17namedExact(cc.Value.Type()); (n == nil || !k.inRegionType(n)) && !k.isWval(cc.Value) {
+		return nil
+	}
+	var out []*ssa.Function
+	seen := map[*ssa.Function]bool{}
+	for _, tn := range k.regionTypes() {
+		for _, t := range []types.Type{tn, types.NewPointer(tn)} {
+			if !types.Implements(t, it) {
+				continue
+			}
+			sel := k.c.Prog.MethodSets.MethodSet(t).Lookup(cc.Method.Pkg(), cc.Method.Name())
+			if sel == nil {
+				continue
+			}
+			f := k.c.Prog.MethodValue(sel)
+			if f == nil {
+				continue
+			}
+			f = unwrap(f)
+			if len(f.Blocks) > 0 && k.inRegion(f) && !seen[f] {
+				seen[f] = true
+				out = append(out, f)
+			}
+			break // *T has the methods of T: one entry per type
+		}
+	}
+	return out
+}
+
+// regionTypes: the named non-interface types declared in the region, sorted by name.
+func (k *c17kit) regionTypes() []*types.Named {
+	if k.types != nil {
+		return k.types
+	}
+	seen := map[*types.Named]bool{}
+	add := func(t types.Type) {
+		n := c17named(t)
+		if n == nil || seen[n] || !k.inRegionType(n) {
+			return
+		}
+		if _, isI := n.Underlying().(*types.Interface); isI {
+			return
+		}
+		seen[n] = true
+		k.types = append(k.types, n)
+	}
+	for _, sp := range k.c.spkgs {
+		if p := sp.Pkg.Path(); p != k.pkg.Pkg.Path() && !strings.HasPrefix(p, k.pkg.Pkg.Path()+"/") {
+			continue
+		}
+		for _, m := range sp.Members {
+			if tm, ok := m.(*ssa.Type); ok {
+				add(tm.Type())
+			}
+		}
+	}
+	// types declared inside functions
+	eachInstrOf(k.fns, func(_ *ssa.Function, i ssa.Instruction) {
+		if mi, ok := i.(*ssa.MakeInterface); ok {
+			add(mi.X.Type())
+		}
+	})
+	sort.Slice(k.types, func(a, b int) bool { return k.types[a].String() < k.types[b].String() })
+	return k.types
 }
 
 func c17stKey(s c17st) int {
